@@ -341,6 +341,9 @@ impl ExprImport {
 	pub fn text(&self) -> Option<Text> {
 		support::token_child(&self.syntax)
 	}
+	pub fn expr(&self) -> Option<Expr> {
+		support::children(&self.syntax).next()
+	}
 }
 
 #[derive(Debug, Clone, PartialEq, Eq, Hash)]
